@@ -185,6 +185,8 @@ def check_case(case):
         return check_siglen(case)
     if case.get('kind') == 'lows':
         return check_lows(case)
+    if case.get('kind') == 'kept':
+        return check_kept(case)
     return {'key': check_key, 'sign': check_sign, 'verify': check_verify, 'pubvalid': check_pubvalid, 'env': check_env}[case['kind']](case)
 
 
@@ -321,6 +323,9 @@ def t_keys(ctx):
         for i, x in enumerate([1, 2, 0x0101, n - 1, 12345678901234567890, 122]):
             ctx.run({'kind': 'env', 'secret': x, 'digest': ('%064x' % ((x * 7 + 5) % 2 ** 256)), 'opt': i < 2})
         ctx.exhaustive.append('6 secrets through a worker thread, an orphaned public key and (2 of them) an interpreter started with -O')
+    if ctx.shard == 1 % ctx.nshards:
+        ctx.run({'kind': 'kept', 'secrets': [3, 0x1234567, n - 2], 'digest': '11' * 32})
+        ctx.exhaustive.append('6 public-key objects kept alive across a churn of 1,300 other keys; a bytearray secret handed in three times')
     ctx.hyp(s_key(), ctx.n(500, 5000))
     # every secret 1..N and n-N..n-1 in both encodings (one key in 256 has a y coordinate, one in 256 an x coordinate, with a
     # leading zero byte; one in 65,536 with two): the fixed-width encodings must keep their leading zeros
@@ -358,6 +363,38 @@ def check_siglen(case):
         if s_bad > 0 and libx.call('verify-len', qk.verify, z, secp.der(r, s_bad))[1] is not False:
             raise Violation('verify/invalid-accepted-by-length', 'CPubKey.verify accepts an invalid signature of %d bytes' % len(secp.der(r, s_bad)))
     return {'nt': True, 'evals': 4, 'cls': ['siglen:%d' % len(der)]}
+
+
+def check_kept(case):
+    """objects with a history: public-key objects KEPT ALIVE while a thousand other keys come and go still verify for their own
+    point (both directions); a bytearray secret handed in twice (other compression the second time) is read, not written"""
+    xs = case['secrets']
+    z = bytes.fromhex(case['digest'])
+    kept = []
+    for x in xs:
+        P = secp.mul(x, secp.G)
+        for comp in (True, False):
+            pk = libx.call('pubkey', CPubKey, secp.ser_pub(P, comp))[1]
+            r, s_ = secp.sign(x, z)
+            kept.append((x, pk, secp.der(r, s_)))
+    for rnd in range(2):
+        for i, (x, pk, sig) in enumerate(kept):
+            other = kept[(i + 2) % len(kept)]
+            if libx.call('verify-kept', pk.verify, z, sig)[1] is not True:
+                raise Violation('kept/own-rejected', 'a CPubKey kept alive rejects a valid signature of its key %s' % ('after the churn' if rnd else 'at once'))
+            if other[0] != x and libx.call('verify-kept', pk.verify, z, other[2])[1] is not False:
+                raise Violation('kept/foreign-accepted', 'a CPubKey kept alive accepts the signature of another key %s' % ('after the churn' if rnd else 'at once'))
+        if rnd == 0:
+            libx.churn(1.2)
+    buf = bytearray(xs[0].to_bytes(32, 'big'))
+    for comp in (True, False, True):
+        k = libx.call('key/from_secret_bytes-bytearray', CBitcoinSecret.from_secret_bytes, buf, comp)[1]
+        if bytes(buf) != xs[0].to_bytes(32, 'big'):
+            raise Violation('key/secret-buffer-written', 'from_secret_bytes changed the bytearray it was given')
+        if bytes(k.pub) != secp.ser_pub(secp.mul(xs[0], secp.G), comp) or k.is_compressed != comp or \
+                str(k) != b58.check_encode(RC.CHAINS['mainnet']['secret'], xs[0].to_bytes(32, 'big') + (b'\x01' if comp else b'')):
+            raise Violation('key/secret-as-bytearray', 'from_secret_bytes(<bytearray>, compressed=%s) gives another key / WIF' % comp)
+    return {'nt': True, 'evals': 4 * len(kept) + 3, 'cls': ['kept']}
 
 
 def check_lows(case):
